@@ -60,11 +60,12 @@ variable (sched : Nat → Nat → Nat) (hs : ∀ i n, 0 < n → 0 < sched i n)
 include hs
 
 /-- the raw layer (positions relative to the end of the header) -/
-theorem throttled_raw (full : Bytes) (off : Nat) (hoff : off ≤ full.length) :
+theorem throttled_raw (full : Bytes) (off : Nat) (hoff : off ≤ full.length)
+    (hfull : full.length < U64) :
     IsCursor (σ := RawR (Throttled sched))
       (fun r => TInv sched full r.inner ∧ r.off = off ∧ off ≤ r.inner.pos)
       (fun r => r.inner.pos - r.off) (full.drop off) :=
-  RawR.isCursor full off hoff (throttled_cursor sched hs full)
+  RawR.isCursor full off hoff hfull (throttled_cursor sched hs full)
 
 /-- the encryption reader -/
 theorem throttled_enc (P : Params) (C : EncPrims) (hC : C11.EncPrims.Laws P C) (p : Bytes)
@@ -87,10 +88,11 @@ theorem throttled_stack (P : Params) (C : EncPrims) (hC : C11.EncPrims.Laws P C)
     (rd : Nat → Nat) (hrd : ∀ m, 0 < m → 0 < rd m ∧ rd m ≤ m) (hrd0 : rd 0 = 0)
     (p : Bytes) (cs : List Bytes) (e : Bytes) (hc : IsCompressed P K p cs e)
     (hchunks : e.length / P.chunk + 1 < U32)
-    (full : Bytes) (off : Nat) (hoff : off ≤ full.length) (hfull : full.drop off = sealS P C e) :
+    (full : Bytes) (off : Nat) (hoff : off ≤ full.length) (hfile : full.length < U64)
+    (hfull : full.drop off = sealS P C e) :
     ∃ (InvS : CompRd P K rd (EncRd P C (RawR (Throttled sched))) → Prop),
       IsCursor InvS (fun s => s.r.upos) p := by
-  have h1 := throttled_raw sched hs full off hoff
+  have h1 := throttled_raw sched hs full off hoff hfile
   rw [hfull] at h1
   exact ⟨_, C11.CompRd.isCursor P K rd hrd hrd0 p cs e hc (C11.EncRd.isCursor P C hC e hchunks h1)⟩
 
